@@ -243,12 +243,14 @@ def check_cont(ctx, src, mod=None):
     cc = mod.func("HyCommandCompiler.__call__")
     ctx.require(cc is not None, "HyCommandCompiler.__call__ not found")
     hs = [h for t in pyq.walk_no_nested(cc) if isinstance(t, ast.Try) for h in t.handlers if h.type is not None and norm(h.type) == "PrematureEndOfInput"]
-    ok = False
+    ok = None
     if len(hs) == 1:
-        b = hs[0].body
-        ok = (len(b) == 1 and isinstance(b[0], ast.If) and norm(b[0].test) == "not self.allow_incomplete" and len(b[0].body) == 1
-              and isinstance(b[0].body[0], ast.Raise) and b[0].body[0].exc is None and not b[0].orelse)
-    ctx.check(ok, "REPL-CONT", f"{REL}|HyCommandCompiler.__call__|continuation",
+        # exits of the handler: a bare `raise` exactly when not allow_incomplete; otherwise it returns None (or falls off the end)
+        raises = [n for n in ast.walk(hs[0]) if isinstance(n, ast.Raise)]
+        rets = [n for n in ast.walk(hs[0]) if isinstance(n, ast.Return)]
+        ok = (len(raises) == 1 and raises[0].exc is None and [str(g) for g in pyq.guard_texts(raises[0], hs[0])] == ["not self.allow_incomplete"]
+              and all(r.value is None or (isinstance(r.value, ast.Constant) and r.value.value is None) for r in rets))
+    ctx.decide("REPL-CONT", f"{REL}|HyCommandCompiler.__call__|continuation", ok,
               "PrematureEndOfInput must become `None` (continuation) exactly when allow_incomplete, and be re-raised otherwise", REL, cc.lineno,
               witness="the REPL reports an error for `(+ 1` instead of prompting `... `", detail="except PrematureEndOfInput: if not allow_incomplete: raise")
     sup = pyq.contains(cc, lambda n: isinstance(n, ast.Return) and isinstance(n.value, ast.Call) and "super().__call__" in norm(n.value))
